@@ -33,7 +33,10 @@ Tables == {
     [n \in {"A", "B"} |-> IF n = "A" THEN "B" ELSE "C"],                 \* B is captured: A -> B, B -> C
     (* the outer class of a$b / a$1 is mapped, the nested classes are not: an unmapped name stays as it is, whatever *)
     (* happens to the name in front of its $ (seed C06-12)                                                           *)
-    [n \in {"a", "A"} |-> IF n = "a" THEN "z/Q" ELSE "X"]
+    [n \in {"a", "A"} |-> IF n = "a" THEN "z/Q" ELSE "X"],
+    (* names with an unpaired surrogate (the projection carries it as the private-use character U+E03D): a Java name is a *)
+    (* sequence of Java characters, a remapper copies them as they are                                                    *)
+    [n \in {"A", "B"} |-> IF n = "A" THEN "x/y" ELSE "Q"]
 }
 TableTree(R) == Root(NS2, <<>>, MapOf({Class(<<n, R[n]>>, <<>>, <<>>) : n \in DOMAIN R}))
 
@@ -102,7 +105,7 @@ PickDesc ==
 
 PickClass ==
     /\ phase = "class1"
-    /\ \E c \in CNames \cup {"B", "X", "[LA;", "[[La$b;", "[I", "[[LL;", "a", "a$1", "a$b$c"} : q' = [c |-> c]
+    /\ \E c \in CNames \cup {"B", "X", "[LA;", "[[La$b;", "[I", "[[LL;", "a", "a$1", "a$b$c", "B", "[LB;"} : q' = [c |-> c]
     /\ phase' = "class"
     /\ UNCHANGED M
 
